@@ -166,6 +166,20 @@ func tAdd(a, b Term) Term {
 	if a == "0" {
 		return b
 	}
+	if x, ok := constLen(a); ok {
+		if y, ok := constLen(b); ok {
+			return tInt(int64(x + y))
+		}
+	}
+	// (+ (+ t c1) c2) -> (+ t c)
+	if y, ok := constLen(b); ok && strings.HasPrefix(a, "(+ ") && strings.HasSuffix(a, ")") {
+		inner := a[3 : len(a)-1]
+		if k := strings.LastIndex(inner, " "); k > 0 {
+			if x, ok := constLen(inner[k+1:]); ok && balanced(inner[:k]) {
+				return sx("+", inner[:k], tInt(int64(x+y)))
+			}
+		}
+	}
 	return sx("+", a, b)
 }
 func tSub(a, b Term) Term {
